@@ -66,7 +66,7 @@ def gen_c20(tier, rng):
 C20 = Prop(
     "C20", "iter", ["NitroVerif.Props.C20"], gen_c20,
     rule="exhaustive over adaptor {enumerate, reverse} x container kind {vector, deque, list, fixed_vector, std::array, "
-         "set, map, built-in array, initializer list} x value category {lvalue, const, rvalue} (where the language "
+         "set, map, built-in array, initializer list} x value category {lvalue, const, rvalue moved from a named object, genuine temporary returned by a call, const temporary} (where the language "
          "allows) x length 0..6 (1..6 / 1..4 for built-in arrays / initializer lists) x read-only / write-through, with "
          "distinct ascending, descending and seeded random values; all under ASan (a dangling temporary is a "
          "use-after-scope). Non-trivial: length >= 2. Distinct = distinct case line. " \
